@@ -286,6 +286,55 @@ def run_scripts(chk, exe, scripts, broken, use_model):
     return True
 
 
+def through_vnacal(chk, exe, rng, count, length):
+    """the same histories through vnacal_property_*: register 0 is the global tree of a vnacal_t (ci = -1), register 1 the tree of its
+    calibration 0; every answer — values, subtrees, null nodes told apart from failures by errno — must be the document model's"""
+    from props import calsim
+    sc = calsim.Scenario(rng, 'T8', 1, 1, 1).begin()
+    for code in (calsim.SHORT, calsim.OPEN, calsim.MATCH):
+        sc.add_reflect(1, code)
+    sc.solve().add_calibration(b'c')
+    setup = sc.lines
+    for k in range(count):
+        hist = [l for l in (gen_history(rng, length) if k % 3 else gen_churn(rng, length)) if l.split()[2] not in ('copy', 'quote_key', 'free', 'live') and int(l.split()[1]) < 2]
+        exp = expected_for(hist)
+        lines = []
+        for l in hist:
+            w = l.split()
+            lines.append('cal ptprop 0 %d %s %s' % (-1 if w[1] == '0' else 0, w[2], ' '.join(w[3:]) if len(w) > 3 else vlib.hexbytes(b'.')))
+        full = setup + lines + ['cal free 0', 'cal live']
+        out, rc, err = vlib.run_lines(exe, full, timeout=300)
+        chk.evaluations += 1
+        if rc != 0 or len(out) != len(full):
+            chk.violation('sanitizer-calprop', 'crash / sanitizer report in a vnacal_property_* history:\n' + err[-1500:], full[:len(out) + 1])
+            return False
+        got = out[len(setup):len(setup) + len(lines)]
+        d = first_bad(got, exp)
+        if d is not None:
+            def bad(ls):
+                o2, rc2, _ = vlib.run_lines(exe, setup + ls)
+                e2 = expected_for(['pt %d %s' % (0 if x.split()[3] == '-1' else 1, ' '.join(x.split()[4:] if x.split()[4] != 'digest' else ['digest'])) for x in ls])
+                return rc2 != 0 or first_bad(o2[len(setup):], e2) is not None
+            cut = lines[:d + 1]
+            small = vlib.shrink(cut, bad) if bad(cut) else cut
+            o2, _, _ = vlib.run_lines(exe, setup + small)
+            e2 = expected_for(['pt %d %s' % (0 if x.split()[3] == '-1' else 1, ' '.join(x.split()[4:] if x.split()[4] != 'digest' else ['digest'])) for x in small])
+            dd = first_bad(o2[len(setup):], e2)
+            dd = dd if dd is not None and dd < len(small) else len(small) - 1
+            w = small[dd].split()
+            chk.violation('document-vnacal-' + w[4], 'vnacal_property_%s (ci = %s) disagrees with the document model at %r:\n  library : %s\n  expected: %s' % (
+                w[4], w[3], bytes.fromhex(w[5][1:]), (o2[len(setup):] + ['?'])[dd][:300], e2[dd][:300]), setup + small)
+            return False
+        if out[-1] != 'ok live=0':
+            chk.violation('calprop-leak', 'allocations remain after vnacal_free of a vnacal_t with property trees: ' + out[-1], full)
+            return False
+        chk.distinct.add(hash(tuple(lines)))
+        chk.count('vnacal_property_histories')
+        for l in lines:
+            chk.count('calop_' + l.split()[4])
+    return True
+
+
 def run(chk):
     rng = random.Random(chk.seed * 31 + 13)
     broken = []
@@ -314,6 +363,8 @@ def run(chk):
     for k in range(0, len(scripts), B):
         if not run_scripts(chk, exe, scripts[k:k + B], broken, use_model):
             break
+    if not chk.violations:
+        through_vnacal(chk, exe, rng, (40 if quick else 1200) * (3 if broken else 1), 50 if quick else 120)
     chk.samples = [[l for l in scripts[-1][:10]]]
     if broken and not chk.violations:
         chk.violation('obligation', 'proof/correspondence obligations that no longer check:\n' + '\n'.join(broken[:30]), nofail=True)
